@@ -54,19 +54,37 @@ class Tol:
     def __init__(self, rel, floor):
         self.rel, self.floor = rel, floor
 
-    def close(self, a, b, growth=1.0):
+    def close(self, a, b, growth=1.0, scale=0.0):
         if a == b or (math.isnan(a) and math.isnan(b)):
             return True
         if math.isnan(a) or math.isnan(b) or math.isinf(a) or math.isinf(b):
             return False
-        return abs(a - b) <= growth * self.rel * max(abs(a), abs(b), self.floor)
+        return abs(a - b) <= growth * self.rel * max(abs(a), abs(b), scale)
 
 
-# |a-b| <= rel * max(|a|, |b|, 1): relative for large values, absolute below 1 (the data are O(1);
-# differences come from the summation order of the clipping norm and, for the specification,
-# from the different association of the textbook formulas, and accumulate over a history)
-TOL_MODEL = Tol(2.0 ** -18, 1.0)   # implementation vs model (float32 emulation)
-TOL_SPEC = Tol(2.0 ** -11, 1.0)    # implementation vs textbook equations evaluated in float32
+# |a-b| <= rel * max(|a|, |b|, S) where S is the largest magnitude the same quantity (values, gradients,
+# one named statistic, one configuration key) has had so far in the history: relative to the scale of
+# the quantity, so that small statistics (m ~ 1e-12 for tiny gradients) are compared as sharply as
+# O(1) values, and a value passing through zero is compared at the scale of its history.
+# Differences come from the summation order of the clipping norm and, for the specification, from the
+# different association of the textbook formulas, and accumulate over a history.
+TOL_MODEL = Tol(2.0 ** -18, 0.0)   # implementation vs model (float32 emulation)
+TOL_SPEC = Tol(2.0 ** -11, 0.0)    # implementation vs textbook equations evaluated in float32
+
+
+def _mag(t):
+    """magnitude of a number token for the running scale (0 for non-finite / non-float)"""
+    c = t[:1]
+    try:
+        if c == "x" and len(t) == 9:
+            f = abs(struct.unpack("<f", struct.pack("<I", int(t[1:], 16)))[0])
+            return f if f < 3e38 else 0.0
+        if c == "q":
+            n, d = t[1:].split("/")
+            return abs(int(n) / int(d))
+    except (ValueError, struct.error, ZeroDivisionError, OverflowError):
+        pass
+    return 0.0
 
 
 class StreamCmp:
@@ -81,6 +99,8 @@ class StreamCmp:
         self.rounded = False
         self.updates = 0
         self.eigen = False
+        self.scale = {}
+        self.cur = 0.0
         self.exact_values = 0
         self.exact_misses = 0
         self.max_dev = 0.0
@@ -89,6 +109,22 @@ class StreamCmp:
         self.rounded = False
         self.updates = 0
         self.eigen = False
+        self.scale = {}
+        self.cur = 0.0
+
+    def observe(self, words):
+        """update the running scale of every `key=numbers` token"""
+        sc = self.scale
+        for w in words:
+            i = w.find("=")
+            if i > 0:
+                k = w[:i]
+                m = sc.get(k, 0.0)
+                for t in w[i + 1:].split(","):
+                    v = _mag(t)
+                    if v > m:
+                        m = v
+                sc[k] = m
 
     def growth(self):
         """rounding differences accumulate along a history: the tolerance grows linearly with the
@@ -122,21 +158,24 @@ class StreamCmp:
                 # an intermediate result that is not printed was rounded by the implementation
                 self.exact_misses += 1
             self.rounded = True
-            return self.tol.close(pa[1], float(pb[1]), self.growth())
+            return self.tol.close(pa[1], float(pb[1]), self.growth(), self.cur)
         if pa[0] == "x" and pb[0] == "x":
             if a == b:
                 return True
-            ok = self.tol.close(pa[1], pb[1], self.growth())
+            ok = self.tol.close(pa[1], pb[1], self.growth(), self.cur)
             if ok and not (math.isnan(pa[1]) or math.isnan(pb[1])):
-                d = abs(pa[1] - pb[1]) / max(abs(pa[1]), abs(pb[1]), 1.0)
+                d = abs(pa[1] - pb[1]) / max(abs(pa[1]), abs(pb[1]), self.cur, 1e-30)
                 self.max_dev = max(self.max_dev, d)
             return ok
         return False
 
     def line(self, impl, other):
+        wi = impl.split(" ")
+        self.observe(wi)
         if impl == other:
             return True
-        wi, wo = impl.split(" "), other.split(" ")
+        wo = other.split(" ")
+        self.observe(wo)
         if not self.rounded and "q" in other:
             # a rational of this line that is not a float32: the implementation rounded somewhere in this step
             for b in wo:
@@ -158,6 +197,7 @@ class StreamCmp:
                 la, lb = va.split(","), vb.split(",")
                 if len(la) != len(lb):
                     return False
+                self.cur = self.scale.get(ka, 0.0)
                 if not all(self.num(x, y) for x, y in zip(la, lb)):
                     return False
             else:
